@@ -55,6 +55,7 @@ type fnSpec struct {
 	heartbeats   int               // elaboration budget of the generated module (0 = Lean's default); a large nest of local recursive functions needs more than the default to be compiled, never "unlimited"
 	joins        bool              // translate the code after a branching statement once, as a local join point (see tryJoin)
 	selfRec      bool              // the function calls itself: the generated definition takes the function to call as its first argument (`self`)
+	inlineClosures bool            // local procedures (function literals without results or returns, bound to a name) are expanded where they are called (see expandClosures)
 	extConsts    map[string]string // constants of package constants the function names -> their value (checked against constants/const.go)
 }
 
@@ -535,6 +536,55 @@ var (
 	ribStack = stateField{goExpr: "installStack", lean: "installStack", kd: kind{k: "set"}}
 )
 
+
+// rib.Flush. A RIBHolder is represented by the name of its network instance, as in DeleteEntry.
+// The five tables of an instance are read where the Go code ranges over them: each place is an
+// oracle (a function of the instance name), and the group table, which is read again after the
+// backup groups have been deleted, is a different oracle there (#2). Declared precondition: the
+// instances named exist (the server's Flush checks that before it calls; with an unknown name the
+// Go code logs and then dereferences a nil holder).
+var ribFlushSpec = fnSpec{
+	file: "rib/rib.go", goName: "Flush", recvType: "*RIB", callAs: "r.Flush§", leanName: "ribFlush", valueLoops: true, inlineClosures: true,
+	params: []param{{goName: "networkInstances", goType: "[]string", lean: "networkInstances", kd: kind{k: "list", s: "String"}}},
+	goRets: "error", rets: []string{"ptr:FlushErr"},
+	oracleParams: []param{
+		{goName: "§v4", lean: "v4", kd: kind{k: "fun", t: []kind{{k: "map", s: "OrigTop", t: []kind{kStr}}, kStr}}},
+		{goName: "§v6", lean: "v6", kd: kind{k: "fun", t: []kind{{k: "map", s: "OrigTop", t: []kind{kStr}}, kStr}}},
+		{goName: "§mpls", lean: "mpls", kd: kind{k: "fun", t: []kind{{k: "map", s: "OrigTop", t: []kind{kNat}}, kStr}}},
+		{goName: "§nhgs", lean: "nhgs", kd: kind{k: "fun", t: []kind{{k: "map", s: "FlNHG", t: []kind{kNat}}, kStr}}},
+		{goName: "§nhgsRest", lean: "nhgsRest", kd: kind{k: "fun", t: []kind{{k: "map", s: "FlNHG", t: []kind{kNat}}, kStr}}},
+		{goName: "§nhs", lean: "nhs", kd: kind{k: "fun", t: []kind{{k: "map", s: "Unit", t: []kind{kNat}}, kStr}}},
+		{goName: "§refName", lean: "refName", kd: kind{k: "fun", t: []kind{kStr, kStr, kStr}}},
+		{goName: "§refErr", lean: "refErr", kd: kind{k: "fun", t: []kind{kind{k: "status"}, kStr, kStr}}},
+		{goName: "§del4", lean: "del4", kd: kind{k: "fun", t: []kind{kind{k: "status"}, kStr, kStr}}},
+		{goName: "§del6", lean: "del6", kd: kind{k: "fun", t: []kind{kind{k: "status"}, kStr, kStr}}},
+		{goName: "§delM", lean: "delM", kd: kind{k: "fun", t: []kind{kind{k: "status"}, kStr, kNat}}},
+		{goName: "§delG", lean: "delG", kd: kind{k: "fun", t: []kind{kind{k: "status"}, kStr, kNat}}},
+		{goName: "§delH", lean: "delH", kd: kind{k: "fun", t: []kind{kind{k: "status"}, kStr, kNat}}},
+	},
+	oracles: map[string]oracle{
+		"r.NetworkInstanceRIB":    {results: []string{"$0", "true"}},
+		"r.refdRIB":               {results: []string{"§refName@0,1", "§refErr@0,1"}},
+		"*.decNHGRefCount":        {results: []string{}, effect: "decNHGRef", args: []int{-1, 0}},
+		"niR.locklessDeleteIPv4":  {results: []string{"§del4@recv,0"}, effect: "flDelStr:4", args: []int{-1, 0}},
+		"niR.locklessDeleteIPv6":  {results: []string{"§del6@recv,0"}, effect: "flDelStr:6", args: []int{-1, 0}},
+		"niR.locklessDeleteMPLS":  {results: []string{"§delM@recv,0"}, effect: "flDelNat:1", args: []int{-1, 0}},
+		"niR.locklessDeleteNHG":   {results: []string{"§delG@recv,0"}, effect: "flDelNat:2", args: []int{-1, 0}},
+		"niR.locklessDeleteNH":    {results: []string{"§delH@recv,0"}, effect: "flDelNat:3", args: []int{-1, 0}},
+	},
+	subst: map[string]string{
+		"niR.r.Afts.Ipv4Entry":      "§v4@niR",
+		"niR.r.Afts.Ipv6Entry":      "§v6@niR",
+		"niR.r.Afts.LabelEntry":     "§mpls@niR",
+		"niR.r.Afts.NextHopGroup#1": "§nhgs@niR",
+		"niR.r.Afts.NextHopGroup#2": "§nhgs@niR",
+		"niR.r.Afts.NextHopGroup#3": "§nhgsRest@niR",
+		"niR.r.Afts.NextHop":        "§nhs@niR",
+	},
+	effects: true,
+	typeMap: map[string]string{"aft.Afts_NextHopGroup": "FlNHG"},
+}
+
 var ribSpecs = []fnSpec{
 	{
 		file: "rib/rib.go", goName: "getPending", recvType: "*RIB", callAs: "r.getPending", leanName: "getPending",
@@ -958,4 +1008,5 @@ func init() {
 	specs = append(specs, clientSpecs...)
 	specs = append(specs, clientSpecs2...)
 	specs = append(specs, ribSpecs...)
+	specs = append(specs, ribFlushSpec)
 }
